@@ -628,6 +628,8 @@ func registerNatives(P *Program) {
 	reg("time.Sleep", nop)
 
 	registerStrconvNatives(P, reg)
+	registerJSONNatives(P, reg)
+	registerHTTPNatives(P, reg)
 	registerReflectNatives(P, reg)
 	registerThreadNatives(P, reg)
 }
